@@ -1,9 +1,25 @@
 // Substitute for src/index/updater.rs (engine E2): hosts the kernel functions of the rune updater,
 // extracted verbatim from src/index/updater/rune_updater.rs, against the environment shims of
-// contracts/ord/shim/env.rs.  Dropped: index_runes (HashMap/Vec/sort-heavy allocation loop: does not
-// terminate under CBMC) and tx_commits_to_rune (RPC + script instruction iterator), which is
-// replaced by an assumed-contract shim method returning a harness-chosen boolean.
-use super::*;
+// contracts/ord/shim/env.rs.  Extracted: mint, update, unallocated.  NOT extracted: etched, create_rune_entry and index_runes -
+// all three read the discriminant of `ordinals::Artifact`, on which Kani 0.68 aborts with an internal
+// compiler error (see contracts/ord/rune_updater_etching_contracts.rs.disabled) - and
+// tx_commits_to_rune (RPC + script instruction iterator).
+use {
+  super::*,
+  crate::env::Table,
+};
+
+// The per-transaction sat kernel (properties C01, C02): `struct Updater` and
+// `Updater::index_transaction_sats`, extracted verbatim from src/index/updater.rs.
+//@extract src/index/updater.rs :: struct Updater
+
+impl Updater<'_> {
+  //@extract src/index/updater.rs :: impl Updater<'_> :: fn index_transaction_sats
+}
+
+#[cfg(any(kani, ordinals_ord_verif))]
+#[path = "/verif/contracts/ord/updater_contracts.rs"]
+pub(crate) mod verif_contracts;
 
 pub(crate) mod rune_updater {
   use {
@@ -15,24 +31,27 @@ pub(crate) mod rune_updater {
 
   impl RuneUpdater<'_, '_, '_> {
     //@extract src/index/updater/rune_updater.rs :: impl RuneUpdater<'_, '_, '_> :: fn update
-    //@extract src/index/updater/rune_updater.rs :: impl RuneUpdater<'_, '_, '_> :: fn create_rune_entry
-    //@extract src/index/updater/rune_updater.rs :: impl RuneUpdater<'_, '_, '_> :: fn etched
     //@extract src/index/updater/rune_updater.rs :: impl RuneUpdater<'_, '_, '_> :: fn mint
     //@extract src/index/updater/rune_updater.rs :: impl RuneUpdater<'_, '_, '_> :: fn unallocated
   }
 
-  /// ghost: what the (unverified) commitment check answers in this harness
-  pub(crate) static mut TX_COMMITS: bool = false;
+  #[cfg(any(kani, ordinals_ord_verif))]
+  #[path = "/verif/contracts/ord/rune_updater_contracts.rs"]
+  pub(crate) mod verif_contracts;
+}
 
-  impl RuneUpdater<'_, '_, '_> {
-    /// SHIM with an ASSUMED contract: the real function (RPC + tapscript scan) is not under
-    /// contract; the harness chooses its answer, so `etched` is verified for both answers.
-    fn tx_commits_to_rune(&self, _tx: &Transaction, _rune: Rune) -> Result<bool> {
-      Ok(unsafe { TX_COMMITS })
-    }
+pub(crate) mod inscription_updater {
+  use super::*;
+
+  /// SHIM: the real InscriptionUpdater borrows a dozen redb tables; `calculate_sat` is an associated
+  /// function that uses none of them and is extracted verbatim.
+  pub(crate) struct InscriptionUpdater;
+
+  impl InscriptionUpdater {
+    //@extract src/index/updater/inscription_updater.rs :: impl InscriptionUpdater<'_, '_> :: fn calculate_sat
   }
 
   #[cfg(any(kani, ordinals_ord_verif))]
-  #[path = "/verif/contracts/ord/rune_updater_contracts.rs"]
+  #[path = "/verif/contracts/ord/inscription_updater_contracts.rs"]
   pub(crate) mod verif_contracts;
 }
